@@ -82,7 +82,7 @@ def project_gregory(o, S, rule):
         st_ = {c: s['state'][0] for c, s in cs.items() if s['state'] != 'withdrawn'}
         return (votes, raw(a['nt_votes'], S), st_)
     from ..exact import frac
-    h = [('Q', raw(frac(o.record['quota']), S))]
+    h = [('Q', raw(common.header_quota(o), S))]
     i = 0
     begun = False
     extra = []
